@@ -13,7 +13,8 @@ has no path parameters: always "missing"), `valuesFromCookie`, the safe-method s
 (exact, case-sensitive strings), the comparison loop with `lastTokenErr`/`lastExtractorErr`,
 the error mapping (403 invalid / 400 missing), the publication (Set-Cookie + context), and
 `randomString` over an explicit byte stream (after the F15 repair: buffer size computed in
-`int`).  `ErrorHandler` and `Skipper` are the defaults (nil / never skip).
+`int`).  `ErrorHandler` is nil or one of two custom handlers (write own response and return nil / return
+own error); `Skipper` is the default (never skips).
 
 Standard-library behaviour implemented here and validated by the correspondence run:
 `textproto.CanonicalMIMEHeaderKey`, `strings.Split`, `strings.EqualFold` for an ASCII prefix,
@@ -191,7 +192,19 @@ structure Cfg where
   tokenLength : Nat
   extractors : List Extractor
   cookieName : Str
+  /-- `CSRFConfig.ErrorHandler`: 0 = nil (the error is returned as it is); 1 = a custom handler
+      that writes its own 418 response and returns nil; 2 = a custom handler that returns its
+      own 409 error.  In every case the middleware returns what the handler returns and `next`
+      is not called. -/
+  errorHandler : Nat := 0
 deriving Repr
+
+/-- status of the response to a request rejected with `s`, through the configured ErrorHandler -/
+def handlerStatus (c : Cfg) (s : Nat) : Nat :=
+  match c.errorHandler with
+  | 0 => s
+  | 1 => 418
+  | _ => 409
 
 def safeMethod (m : Str) : Bool :=
   m = lit "GET" || m = lit "HEAD" || m = lit "OPTIONS" || m = lit "TRACE"
@@ -242,8 +255,8 @@ def serve (c : Cfg) (r : Req) : Result :=
     if safeMethod r.method then .passed token token
     else
       let st := validate token r c.extractors {}
-      if st.lastTokenErr then .rejected 403
-      else if st.lastExtractorErr then .rejected 400
+      if st.lastTokenErr then .rejected (handlerStatus c 403)
+      else if st.lastExtractorErr then .rejected (handlerStatus c 400)
       else .passed token token
 
 /-! ## wire -/
@@ -253,6 +266,7 @@ structure RawCfg where
   tokenLength : Nat
   lookup : Str
   cookieName : Str
+  errorHandler : Nat
 
 /-- `CSRFWithConfig` defaults; `none` = `CreateExtractors` failed (constructor panics) -/
 def mkCfg (rc : RawCfg) : Option Cfg :=
@@ -262,7 +276,8 @@ def mkCfg (rc : RawCfg) : Option Cfg :=
   | some es =>
     some { tokenLength := if rc.tokenLength = 0 then 32 else rc.tokenLength
            extractors := es
-           cookieName := if rc.cookieName = [] then lit "_csrf" else rc.cookieName }
+           cookieName := if rc.cookieName = [] then lit "_csrf" else rc.cookieName
+           errorHandler := rc.errorHandler }
 
 def pPair : P (Str × Str) := do
   let k ← bytes
@@ -283,13 +298,13 @@ def encResult : Result → List String
   | .rejected s => ["0", toString s]
   | .passed sc ctx => ["1", encBytes sc, encBytes ctx]
 
-/-- line: `tokenLength lookup cookieName n (method cookies headers query form rnd)*`
+/-- line: `tokenLength lookup cookieName errorHandler n (method cookies headers query form rnd)*`
     → `cpanic` | `n (2 | 0 status | 1 setCookie ctx)*` -/
 def runLine (line : String) : String :=
   match parseLine (do
-      let n ← nat; let l ← bytes; let cn ← bytes
+      let n ← nat; let l ← bytes; let cn ← bytes; let eh ← nat
       let rs ← list pReq
-      pure (RawCfg.mk n l cn, rs)) line with
+      pure (RawCfg.mk n l cn eh, rs)) line with
   | none => "bad-op"
   | some (rc, rs) =>
     match mkCfg rc with
